@@ -7,7 +7,9 @@ CFG = {
     "rule": "seeded schedules on a server created by AbsfsNFS.Export over loopback TCP, MaxConnections in {1,2,3,5}, IdleTimeout in "
             "{40,60 ms,1 h} on the virtual clock (reaper ticker real): exact part = 5-16 sequential client actions (open 40%, open "
             "from a filtered address, use, close, advance the clock by 0.25-3x the timeout incl. exactly the timeout + reaper "
-            "tick), then either Stop (45%), concurrent churn of 3-8 clients x 3-8 connections (35%) or churn with Stop in the "
+            "tick), then either Stop (45%; in 45% of those the quiet Stop is replaced by 1-3 requests - LOOKUP of a new file, "
+            "MKDIR, WRITE over TCP - held 300-700 ms inside a backend call while Stop, Close or Unexport is called from another "
+            "goroutine), concurrent churn of 3-8 clients x 3-8 connections (35%) or churn with Stop in the "
             "middle of a second burst (20%); then Close/Close, Close/Unexport/Stop, Unexport/Close/Close or "
             "Stop/Close/Unexport/Close; non-trivial = a connection was refused at the limit, reaped, or churned concurrently; "
             "distinct = distinct observed trace",
@@ -23,8 +25,14 @@ CFG = {
                   "timer). Tied to server.go/absnfs.go/operations.go by enacting schedules over loopback TCP: the sequential part "
                   "must be accepted and predicted by the LTS at every quiet point (connCount, len(activeConns), server goroutines, "
                   "served connections), the concurrent part and Close/Unexport are judged by the property's statement on the "
-                  "observations (peak served, counters, goroutine dump after Stop, handle/cache counts). Thorough tier under -race.",
+                  "observations (peak served, counters, goroutine dump after Stop, handle/cache counts; for shutdown calls made while "
+                  "requests are inside a backend call: backend calls still in flight when the call returned, request/connection/"
+                  "accept goroutines left, handle table and caches at the return and again after quiescence, modifying backend "
+                  "operations after the return - oracle only, the LTS has no step for a request's backend work). Thorough tier "
+                  "under -race.",
     "level_note": "Modelled, not verified: Go scheduler, sync primitives, sockets, timers. The worker goroutine HandleCall may leave "
                   "behind after a handler timeout is not a connection goroutine and is outside this model (C16 covers it). "
+                  "Held backend calls last 300-700 ms, well below Stop's 5 s grace: a backend call that outlasts the grace period "
+                  "(Stop then returns an error with the request still running) is outside what the stream samples. "
                   "Trusted: Coq kernel, Model/ConnLTS.v, harness/cmd/drive_lts, verif_hooks_lts.go, the goroutine-dump filter.",
 }
